@@ -599,6 +599,13 @@ pub fn run(ctx: &Ctx) -> Report {
             report.outcomes.insert(1);
             return report;
         }
+        if v["family"] == "U" {
+            let perm: Vec<usize> = serde_json::from_value(v["perm"].clone()).unwrap_or_default();
+            run_family_u(ctx, &mut report, Some(perm));
+            report.outcomes.insert(0);
+            report.outcomes.insert(1);
+            return report;
+        }
         if v["family"] == "M" {
             let perm: Vec<usize> = serde_json::from_value(v["perm"].clone()).expect("perm");
             drop(u);
@@ -654,6 +661,9 @@ pub fn run(ctx: &Ctx) -> Report {
     }
     if report.machinery_errors.is_empty() && report.cap_hit.is_none() && only.as_deref().map(|o| o == "M").unwrap_or(true) {
         run_family_m(ctx, &mut report, None);
+    }
+    if report.machinery_errors.is_empty() && report.cap_hit.is_none() && only.as_deref().map(|o| o == "U").unwrap_or(true) {
+        run_family_u(ctx, &mut report, None);
     }
     if report.machinery_errors.is_empty() && report.cap_hit.is_none() && only.as_deref().map(|o| o == "D").unwrap_or(true) {
         run_dyn(ctx, &mut report, None);
@@ -1236,6 +1246,78 @@ fn run_family_m(ctx: &Ctx, report: &mut Report, only: Option<Vec<usize>>) {
             }
         }
         report.count("family_M_runs", 1);
+    }
+}
+
+// ---------------------------------------------------------------------------------------
+// Family U: an invalid block whose invalidity lives in an index the discard path touches.  a2
+// embeds the uncle u (a sibling of a1); X, a child of a2, embeds u once more (double inclusion);
+// Xv is a valid sibling of X.  X is delivered twice in every arrival order of {a1, a2, X, X, Xv}:
+// the verdict on a block must not depend on the same block having been refused and discarded before.
+fn build_family_u(ctx: &Ctx, cons: &ckb_chain_spec::consensus::Consensus) -> Result<(Materialised, Vec<usize>), String> {
+    use crate::forge::*;
+    let dir = ctx.scratch.join("forge-u");
+    let _ = std::fs::remove_dir_all(&dir);
+    set_time(time_for_height(12));
+    let node = Node::boot(&dir, &NodeOpts::new(cons.clone()))?;
+    node.wait_startup()?;
+    let build = |node: &Node, spec: &BlockSpec| -> Result<BlockView, String> {
+        let snap = std::sync::Arc::clone(&node.shared.snapshot());
+        assemble(&snap, spec)
+    };
+    let u = build(&node, &BlockSpec { miner: 9, ts_offset: 9, ..Default::default() })?;
+    let a1 = build(&node, &BlockSpec { miner: 1, ts_offset: 1, ..Default::default() })?;
+    node.process(&a1).map_err(|e| format!("a1: {e}"))?;
+    let a2 = build(&node, &BlockSpec { miner: 1, ts_offset: 1, uncles: vec![u.as_uncle()], ..Default::default() })?;
+    node.process(&a2).map_err(|e| format!("a2 (embeds the uncle): {e}"))?;
+    let xv = build(&node, &BlockSpec { miner: 5, ts_offset: 5, ..Default::default() })?;
+    let x = build(&node, &BlockSpec { miner: 4, ts_offset: 4, uncles: vec![u.as_uncle()], ..Default::default() })?;
+    if node.process(&x).is_ok() {
+        return Err("family U: the block embedding the uncle a second time was accepted".into());
+    }
+    node.process(&xv).map_err(|e| format!("family U: the valid sibling was refused: {e}"))?;
+    node.destroy();
+    Ok((Materialised { blocks: vec![a1, a2, x, xv], self_valid: vec![true, true, false, true] }, vec![0usize, 1, 2, 2]))
+}
+
+fn run_family_u(ctx: &Ctx, report: &mut Report, only: Option<Vec<usize>>) {
+    let cons = consensus(&WorldOpts::default());
+    let (m, pv) = match build_family_u(ctx, &cons) {
+        Ok(x) => x,
+        Err(e) => {
+            report.machinery_errors.push(format!("family U universe: {e}"));
+            return;
+        }
+    };
+    // every arrangement of the multiset {a1, a2, X, X, Xv}
+    let mut seqs: Vec<Vec<usize>> = match only {
+        Some(p) => vec![p],
+        None => {
+            let mut v: Vec<Vec<usize>> = permutations(5).into_iter().map(|p| p.into_iter().map(|i| [0usize, 1, 2, 2, 3][i]).collect()).collect();
+            v.sort();
+            v.dedup();
+            v
+        }
+    };
+    // the plain order first
+    seqs.sort_by_key(|s| s != &vec![0usize, 1, 2, 2, 3]);
+    for (idx, seq) in seqs.iter().enumerate() {
+        if ctx.replay.is_none() && !ctx.mine(idx as u64) {
+            continue;
+        }
+        if ctx.out_of_time() {
+            report.cap_hit = Some(format!("wall budget reached in family U at order {idx} of {}", seqs.len()));
+            return;
+        }
+        let label = json!({"family": "U", "perm": seq, "blocks": ["a1", "a2 (embeds uncle u)", "X (embeds u again)", "Xv"]});
+        match run_scenario(ctx, &cons, &m, &pv, seq, false, "U", &label, fp(&("U", seq)), idx as u64 * 991 + 3) {
+            Ok(r) => report.merge(r),
+            Err(e) => {
+                report.machinery_errors.push(format!("family U order {seq:?}: {e}"));
+                return;
+            }
+        }
+        report.count("family_U_runs", 1);
     }
 }
 
